@@ -1,19 +1,32 @@
 #!/bin/sh
-# tools/regress_seeded.sh [dir...] : run every seeded change's property check against it, in a scratch worktree of /repo
-# (CIJ_REPO), leaving /repo untouched.  Prints one line per change; "MISSED" if the check exits 0.
-W=/tmp/cijverif.regress.$$
-git -C /repo worktree add -q --detach $W HEAD || exit 2
+# tools/regress_seeded.sh [-j N] [dir...] : run every seeded change's property check against it, each in its own scratch worktree
+# of /repo (CIJ_REPO), leaving /repo untouched.  One line per change; "MISSED" if the check exits 0.  N jobs in parallel (default 4).
+J=4
+if [ "$1" = "-j" ]; then J=$2; shift 2; fi
 [ $# -eq 0 ] && set -- /verif/seeded/*/
+one() {
+  d=${1%/}; name=$(basename $d); id=${name%%-*}
+  W=/tmp/cijverif.regress.$$.$name
+  git -C /repo worktree add -q --detach $W HEAD 2>/dev/null || { echo "$name: cannot create worktree"; return; }
+  if (cd $W && git apply $d/patch.diff 2>/dev/null); then
+    out=/tmp/cijverif.reg.$$.$name
+    (cd /verif && PYTHONPATH=$W CIJ_REPO=$W ./check $id --tier quick > $out 2>&1); rc=$?
+    case $rc in
+      1) echo "$name: caught ($(grep -c '^VIOLATION' $out) lines) $(grep '^  ->' $out | head -1 | cut -c1-120)";;
+      0) echo "$name: MISSED";;
+      *) echo "$name: MACHINERY rc=$rc $(tail -1 $out | cut -c1-160)";;
+    esac
+    rm -f $out
+  else
+    echo "$name: PATCH DOES NOT APPLY"
+  fi
+  git -C /repo worktree remove --force $W 2>/dev/null || rm -rf $W
+}
+n=0
 for d in "$@"; do
-  d=${d%/}; name=$(basename $d); id=${name%%-*}
-  cd $W && git checkout -q -- . && git apply $d/patch.diff 2>/dev/null || { echo "$name: PATCH DOES NOT APPLY"; continue; }
-  cd /verif
-  PYTHONPATH=$W CIJ_REPO=$W ./check $id --tier quick > /tmp/cijverif.reg.$$ 2>&1; rc=$?
-  case $rc in
-    1) echo "$name: caught ($(grep -c '^VIOLATION' /tmp/cijverif.reg.$$) lines) $(grep '^  ->' /tmp/cijverif.reg.$$ | head -1 | cut -c1-120)";;
-    0) echo "$name: MISSED";;
-    *) echo "$name: MACHINERY rc=$rc $(tail -1 /tmp/cijverif.reg.$$ | cut -c1-160)";;
-  esac
+  one "$d" &
+  n=$((n+1))
+  if [ $((n % J)) -eq 0 ]; then wait; fi
 done
-rm -f /tmp/cijverif.reg.$$
-cd /; git -C /repo worktree remove --force $W
+wait
+git -C /repo worktree prune
